@@ -102,7 +102,7 @@ def session_task(W, payload, r, prog, out):
             sv = r.choice([solver0, other_solver, other_solver])
             # every third explicit runner computes only SOME derived outputs
             wl = None
-            if saved_names and r.random() < 0.35:
+            if saved_names and r.random() < 0.5:
                 wl = sorted(r.sample(saved_names, r.randint(1, len(saved_names))))
             hist.append(("get_runner", dict(vals), dyn, sv, wl))
             lop = {"k": "get_runner", "base": [[k, v] for k, v in vals.items()], "solver": sv}
@@ -120,6 +120,24 @@ def session_task(W, payload, r, prog, out):
             for k in r.sample(keys, r.randint(1, min(2, len(keys)))): p.pop(k, None)
         hist.append(("run", p, kind == "rebuild"))
         lops.append({"k": "run", "p": [[k, v] for k, v in p.items()], "solver": solver0, "rebuild": kind == "rebuild"})
+    # tails that every history ends with (in this order when both apply):
+    # (1) after an explicit runner restricted to SOME derived outputs: a rebuilt model.run and an unrestricted explicit runner publish ALL outputs again
+    if any(h_[0] == "get_runner" and h_[4] for h_ in hist):
+        vals = {k: q(Fr(v) * r.choice([Fr(1), Fr(1, 2), Fr(3, 2)])) for k, v in params.items()}
+        hist.append(("run", dict(vals), True)); lops.append({"k": "run", "p": [[k, v] for k, v in vals.items()], "solver": solver0, "rebuild": True})
+        hist.append(("get_runner", dict(vals), None, solver0, None)); lops.append({"k": "get_runner", "base": [[k, v] for k, v in vals.items()], "solver": solver0})
+        n_runners += 1
+        hist.append(("runner_run", n_runners - 1, dict(vals))); lops.append({"k": "runner_run", "h": n_runners - 1, "p": [[k, v] for k, v in vals.items()]})
+        bump(out, "session_tail:unrestricted_after_restricted_runner")
+    # (2) defaults for ALL parameters, a run that leaves some to default, NEW default values for the same names, the same run again
+    if keys and payload["index"] % 2 == 0:
+        omit = r.sample(keys, r.randint(1, min(2, len(keys))))
+        for mult in (Fr(1, 2), Fr(3, 2)):
+            dvals = {k: q(Fr(params[k]) * mult) for k in keys if k in params}
+            hist.append(("defaults", dvals)); lops.append({"k": "defaults", "d": [[k, v] for k, v in dvals.items()]})
+            p = {k: q(Fr(v)) for k, v in params.items() if k not in omit}
+            hist.append(("run", p, False)); lops.append({"k": "run", "p": [[k, v] for k, v in p.items()], "solver": solver0, "rebuild": False})
+        bump(out, "session_tail:defaults_changed_between_runs")
     pred = S.L.send({"op": "session", "ops": lops}, raw=True)
     if not pred.get("ok"):
         out["diffs"].append({"stage": "S9", "what": "session model error", "model": pred, "prescribed": False}); return out
